@@ -39,6 +39,8 @@ ALPH = {
     "kv": (("a", 1.0), ("a", 2.0), ("a", NAN), ("b", 1.0), ("b", 2.0), ("b", NAN)),
     "kv3": (("a", 1.0), ("b", 2.0), ("a", NAN)),
     "one": (("a", 1.0),),
+    "vz": (("a", -1.0), ("a", 1.0), ("a", 2.0)),      # sums that pass through zero while the count does not
+    "inc": (("a", 1.0), ("a", 2.0), ("a", 4.0)),      # no NaN, values far enough apart to tell weights apart
 }
 UNIT = {"s": 10 ** 9, "ns": 1}
 BASE = pd.Timestamp("2000-01-01").value
@@ -360,8 +362,17 @@ class Env:
     def rowkey(self, hi):
         return (self.fam, self.table[:hi], self.grid, self.incs[:max(hi - 1, 0)] if self.incs is not None else None)
 
-    def want(self, spec, lo, hi):
+    def want(self, spec, lo, hi, bounds=None):
         mode = spec.mode
+        if mode == "split":
+            # the expected value depends on where the batch boundaries were (an expression mixing the
+            # current batch with a running aggregate): oracle(prefix, ((lo, hi), ...))
+            if hi == 0:
+                return NOOB
+            key = (spec.key, tuple(bounds))
+            if key not in self.cache:
+                self.cache[key] = spec.oracle(self.full.iloc[:hi], tuple(bounds))
+            return self.cache[key]
         if mode in ("concat", "last"):
             key = (spec.key, "full")
         elif mode == "perbatch":
@@ -433,9 +444,11 @@ def run_case(spec, env, split, want_trace=False):
     full = env.full
     lo = 0
     skey = spec.key
+    bounds = []
     for k, n in enumerate(split):
         hi = lo + n
-        want = env.want(spec, lo, hi)
+        bounds.append((lo, hi))
+        want = env.want(spec, lo, hi, bounds)
         if mode == "last":
             want = want.iloc[hi - 1] if hi > 0 else NOOB
         obliged = (want is not NOOB) if mode != "concat" else hi > 0
